@@ -44,7 +44,10 @@ def err_class(r):
         return "ok"
     i = r.find("-error[")
     if i >= 0:
-        return re.sub(r"[0-9]", "N", r[i:])
+        if "(ALSO DIFFERENT)" in r and re.search(r"uninitialised (function|private)(, (function|private))* variable", r):
+            return "values"       # the undefined read is a recorded finding of its own; the outputs differ besides
+        r = re.sub(r"; with zero there: spv\[\[.*?\]\]", "", r[i:])
+        return re.sub(r"[0-9]", "N", r)
     return "values"
 
 
@@ -112,6 +115,8 @@ def run(ck):
             for k in ck.known:
                 mt = k.get("match", {})
                 if mt.get("knob") and mt["knob"] == knob and re.search(mt.get("error_class_regex", "$^"), cls.replace("-error[", "")):
+                    fid = k["id"]
+                if mt.get("any_knob") and re.search(mt.get("error_class_regex", "$^"), cls.replace("-error[", "")):
                     fid = k["id"]
             key = (knob, cls)
             if fid is None:
